@@ -745,3 +745,131 @@ func TestVerifC11InProcess(t *testing.T) {
 	wg.Wait()
 	en.Done(true)
 }
+
+// TestVerifC11OSPeers: the batch against peers that are real OS processes started through runCommand (the --client /
+// --server command path, os/exec pipes) and that go away while the runner still has something to write to them:
+// a client that exits after k requests while the next, large request is on its way into the pipe, and a server
+// command that exits before reading its start request. The batch ends in bounded time with one outcome per case.
+func TestVerifC11OSPeers(t *testing.T) {
+	en := verifkit.NewEnum(t, "C11OSPeers")
+	type row struct {
+		Kind      string `json:"kind"` // client-exits-mid-write, server-exits-at-once
+		N         int    `json:"n"`
+		ExitAfter int    `json:"exitAfter"`
+		ExitCode  int    `json:"exitCode"`
+		ReqSize   int    `json:"requestBytes"`
+		ServerCmd string `json:"serverCommand"`
+	}
+	var rows []row
+	for _, k := range []int{1, 2} {
+		for _, code := range []int{0, 1} {
+			for _, size := range []int{300 << 10, 70 << 10} {
+				rows = append(rows, row{Kind: "client-exits-mid-write", N: 4, ExitAfter: k, ExitCode: code, ReqSize: size})
+			}
+		}
+	}
+	for _, cmd := range []string{"exit 3", "exit 0", "sleep 0.3; exit 0", "exec 0<&-; sleep 0.3; exit 1"} {
+		rows = append(rows, row{Kind: "server-exits-at-once", N: 3, ServerCmd: cmd})
+	}
+	dir, err := os.MkdirTemp(".", "c11os")
+	if err != nil {
+		t.Fatal(err)
+	}
+	dir, _ = filepath.Abs(dir)
+	defer os.RemoveAll(dir)
+	for ri, r := range rows {
+		var testCases []*conformancev1.TestCase
+		expected := map[string]*conformancev1.ClientResponseResult{}
+		script := vfClientScript{ExitAfter: r.ExitAfter, ExitCode: r.ExitCode, Expected: map[string][]byte{}, Order: "immediate"}
+		for i := 0; i < r.N; i++ {
+			exp := &conformancev1.ClientResponseResult{Payloads: []*conformancev1.ConformancePayload{{Data: []byte(fmt.Sprintf("payload-%d", i))}}}
+			req := &conformancev1.ClientCompatRequest{TestName: vfC11Name(i)}
+			if r.ReqSize > 0 {
+				req.RequestHeaders = []*conformancev1.Header{{Name: "x-padding", Value: []string{strings.Repeat("p", r.ReqSize)}}}
+			}
+			testCases = append(testCases, &conformancev1.TestCase{Request: req, ExpectedResponse: exp})
+			expected[vfC11Name(i)] = exp
+			script.Expected[vfC11Name(i)], _ = proto.Marshal(exp)
+		}
+		results := newResults(r.N, &testTrie{}, &testTrie{}, nil)
+		ctx, cancel := context.WithCancel(context.Background())
+		var client clientRunner
+		var serverStart processStarter
+		if r.Kind == "client-exits-mid-write" {
+			scriptFile, logFile := filepath.Join(dir, fmt.Sprintf("client-%d.json", ri)), filepath.Join(dir, fmt.Sprintf("peer-%d.log", ri))
+			data, _ := json.Marshal(script)
+			_ = os.WriteFile(scriptFile, data, 0o644)
+			cr, err := runClient(ctx, runCommand(vfPeerCommand("script-client", scriptFile, logFile)))
+			if err != nil {
+				cancel()
+				continue // environment
+			}
+			client = cr
+			serverStart = runInProcess([]string{"verif-server"}, func(ctx context.Context, _ []string, in io.ReadCloser, out, _ io.WriteCloser) error {
+				req := &conformancev1.ServerCompatRequest{}
+				if err := internal.ReadDelimitedMessage(in, req, "runner", 10*time.Second, 1<<20); err != nil {
+					return err
+				}
+				if err := internal.WriteDelimitedMessage(out, &conformancev1.ServerCompatResponse{Host: "127.0.0.1", Port: 1}); err != nil {
+					return err
+				}
+				<-ctx.Done()
+				return nil
+			})
+		} else {
+			client = &vfFakeClient{c: vfC11Case{N: r.N, Delivery: "sync"}, expected: expected}
+			serverStart = runCommand([]string{"sh", "-c", r.ServerCmd})
+		}
+		done := make(chan struct{})
+		start := time.Now()
+		go func() {
+			defer close(done)
+			runTestCasesForServer(ctx, false, false, serverInstance{}, testCases, nil, nil, serverStart, &vfC11Printer{}, &vfC11Printer{}, results, client, nil, false)
+		}()
+		var viol error
+		bound := 2*gracefulShutdownPeriod + 40*time.Second
+		select {
+		case <-done:
+		case <-time.After(bound):
+			viol = verifkit.Violf("os-peer-hang:"+r.Kind, "the batch did not end within %v (%+v)", bound, r)
+		}
+		if viol == nil {
+			if cr := client; r.Kind == "client-exits-mid-write" {
+				// the batch is over: the runner would now close the client's input and wait for it
+				waited := make(chan struct{})
+				go func() { defer close(waited); cr.closeSend(); _ = cr.waitForResponses() }()
+				select {
+				case <-waited:
+				case <-time.After(bound):
+					viol = verifkit.Violf("os-peer-hang:"+r.Kind, "waiting for the client's answers after the batch did not end within %v (%+v)", bound, r)
+				}
+			}
+		}
+		if viol == nil {
+			results.mu.Lock()
+			for i := 0; i < r.N; i++ {
+				o, ok := results.outcomes[vfC11Name(i)]
+				switch {
+				case !ok:
+					viol = verifkit.Violf("os-peer-outcome-missing:"+r.Kind, "case %d has no outcome (%+v, took %v)", i, r, time.Since(start))
+				case r.Kind == "server-exits-at-once" && !o.setupError:
+					viol = verifkit.Violf("os-peer-not-setup-error", "the server command exited without answering but case %d is not a setup error: failure=%v (%+v)", i, o.actualFailure, r)
+				case r.Kind == "client-exits-mid-write" && i < r.ExitAfter && (o.actualFailure != nil || o.setupError):
+					viol = verifkit.Violf("os-peer-answered-lost", "case %d was answered by the client before it exited but: setupError=%v failure=%v (%+v)", i, o.setupError, o.actualFailure, r)
+				case r.Kind == "client-exits-mid-write" && i > r.ExitAfter && o.actualFailure == nil && !o.setupError:
+					viol = verifkit.Violf("os-peer-phantom-pass", "case %d was never answered (the client had exited) but is recorded as passed (%+v)", i, r)
+				}
+			}
+			results.mu.Unlock()
+		}
+		cancel()
+		if r.Kind == "client-exits-mid-write" && viol == nil {
+			client.stop()
+		}
+		en.Rec.Observe(r, []string{r.Kind}, true)
+		if viol != nil && en.Fail(r, viol) {
+			break
+		}
+	}
+	en.Done(true)
+}
